@@ -76,7 +76,7 @@ class Run:
             with open(cfgpath, "w") as f:
                 f.write(txt)
         meta = os.path.join(self.work, "md-%s-%d" % (cfg, int(time.time() * 1000) % 100000000))
-        cmd = ["java", "-XX:+UseParallelGC", "-Xss512m"]
+        cmd = ["java", "-XX:+UseParallelGC", "-XX:ParallelGCThreads=4", "-Xss512m"]
         if heap:
             cmd.append("-Xmx" + heap)
         cmd += ["-cp", "/opt/veriftools/tla/tla2tools.jar:/opt/veriftools/tla/CommunityModules-deps.jar",
